@@ -83,6 +83,7 @@ def gen(rng, tier):
         sc["usr"] = USR_TRUE[int(rng.integers(0, len(USR_TRUE)))]
         if rng.random() < 0.15 and cfg["sa"] is None:
           sc["cls"], sc["usr"], cfg["use01"] = "stochastic_binary", USR_TRUE[3], False
+          cfg["mn"] = cfg["mx"] = None      # stochastic_binary(alpha, temperature, use_real_sigmoid): no exponent bounds
         sc["calls"] = [([0, False, "after-training"][int(rng.integers(0, 3))], x)]
       elif stream == "sr-train":
         falsy = rng.random() < 0.2
@@ -236,7 +237,9 @@ def carriers(x, shape, ch_last):
 
 def judge_train(run, K, tf, c, rec, eps32, adm):
   """the clauses that survive the randomness of the training phase (binary with the option on)"""
-  x, y, sc = rec["x"], rec["y"].ravel(), [F(float(v)) for v in rec["sc"]]
+  x, y = rec["x"], rec["y"].ravel()
+  fin = bool(np.isfinite(y).all() and np.isfinite(rec["sc"]).all())
+  sc = [F(float(v)) for v in rec["sc"]] if fin else []
   auto = isinstance(c["alpha"], str)
   key0 = dict(quantizer="binary", alpha=("const" if not auto and c["alpha"] is not None else str(c["alpha"])),
               phase="training", option="use_stochastic_rounding")
@@ -244,8 +247,9 @@ def judge_train(run, K, tf, c, rec, eps32, adm):
   n = y.size
   if n <= 64:
     det0["x"] = [float(v) for v in x.ravel()]
-  if not (np.isfinite(y).all() and np.isfinite(rec["sc"]).all()):
-    run.violate("finite", key0, dict(det0, y=[float(v) for v in y[:8]]), mirrored=False)
+  if not fin:
+    run.count("clause:finite:FAIL")
+    run.violate("finite", key0, dict(det0, y=[float(v) for v in y[:8]], scale=[float(v) for v in rec["sc"][:8]]), mirrored=False)
     return
   if not auto:
     ea = [F(1)] * n if c["alpha"] is None else [F(float(c["alpha"]))] * n
@@ -331,7 +335,8 @@ def judge_train(run, K, tf, c, rec, eps32, adm):
 
 
 def judge_train_ternary(run, c, rec):
-  x, y, sc = rec["x"].ravel(), rec["y"].ravel(), [F(float(v)) for v in rec["sc"]]
+  x, y = rec["x"].ravel(), rec["y"].ravel()
+  sc = [F(float(v)) for v in rec["sc"]] if np.isfinite(rec["sc"]).all() else []
   key0 = dict(quantizer="ternary", alpha=str(c["alpha"]), phase="training", option="use_stochastic_rounding")
   det0 = {"case": {k: (np.asarray(v).tolist() if isinstance(v, np.ndarray) else v) for k, v in c.items() if k != "x"},
           "x": [float(v) for v in x[:64]]}
